@@ -10,6 +10,7 @@ import (
 	"path/filepath"
 	"strings"
 	"sync/atomic"
+	"syscall"
 	"time"
 
 	"verifsim/plan"
@@ -31,6 +32,9 @@ func runChild(b *buildOut, p *plan.Plan, wallLimit time.Duration) *plan.Result {
 	ctx, cancel := context.WithTimeout(context.Background(), wallLimit)
 	defer cancel()
 	cmd := exec.CommandContext(ctx, b.bin, "-test.run", "^TestSim$", "-test.timeout", "0")
+	// on the wall-clock watchdog ask the child for a goroutine dump first
+	cmd.Cancel = func() error { return cmd.Process.Signal(syscall.SIGQUIT) }
+	cmd.WaitDelay = 10 * time.Second
 	// The child's environment block and argv are identical in number and
 	// length of entries for every run of every invocation (fixed-width ids,
 	// fixed HOME/PATH): start-up allocations depend on them, and with the
@@ -58,7 +62,7 @@ func runChild(b *buildOut, p *plan.Plan, wallLimit time.Duration) *plan.Result {
 	} else if err != nil {
 		why = "child failed: " + err.Error()
 	}
-	return &plan.Result{Prop: p.Prop, Seed: p.Seed, Infra: why + "\n" + tail(out.String(), 6000), Stats: map[string]int64{}}
+	return &plan.Result{Prop: p.Prop, Seed: p.Seed, Infra: why + "\n" + tail(out.String(), 200000), Stats: map[string]int64{}}
 }
 
 func tail(s string, n int) string {
